@@ -68,6 +68,17 @@ func VerifHarness_C18_Updates() {
 	}
 }
 
+// Unit lemma for every depth up to 32 (the dense harness above cannot reach them): the side taken at a node of depth d is bit d-1 of
+// the leaf index. With it, the small-depth results carry over: withValue/writeProof recurse uniformly on the node depth.
+func VerifHarness_C18_IndexBit() {
+	depth := verifNondetInt("depth")
+	verifAssume(depth >= 1 && depth <= 32)
+	idx := verifNondetInt("index")
+	verifAssume(idx >= 0 && idx>>uint(depth) == 0)
+	want := (idx>>uint(depth-1))&1 == 0
+	verifAssert(indexIsLeft(idx, depth) == want, "indexIsLeft(index, depth) is bit depth-1 of the index, for every depth up to 32 and every index below 2^depth")
+}
+
 // Native-only: depths 1..32 with a sparse reference (zero-subtree chain by iterated hashing), first/last leaf and a far-apart pair.
 func VerifHarness_C18_Deep() {
 	for depth := 1; depth <= 32; depth++ {
@@ -78,11 +89,8 @@ func VerifHarness_C18_Deep() {
 		tree := NewTree(depth)
 		verifAssert(verifBigEq(tree.Root(), zero[depth]), "the empty tree has the root of the all-zero dense tree")
 		last := 1<<depth - 1
-		if depth >= 31 {
-			last = 1<<30 + 12345
-		}
 		vals := map[int]big.Int{}
-		for step, idx := range []int{0, last, last / 2, 0, last} {
+		for step, idx := range []int{0, last, last / 2, 0, last, last/2 + 1, 1 << (depth - 1)} {
 			v := *big.NewInt(int64(1000 + step))
 			if step == 3 {
 				v = *big.NewInt(0)
